@@ -61,6 +61,21 @@ What is compared on every run (both views, stoichiometry on/off, node keys kind 
 8. *rare but legal names* (stream `odd-names`): species / rules / reaction ids that are numeric strings, contain the separators of
    the label rendering, are names of attribute keys or kinds, are blank, long or non-ASCII.
 
+9. *limits that are reached, one-shot key iterables, dict-valued keys* (coverage-driven; configurations `<name>@api` and stream
+   `dict-keys`): (a) the module-level name `time` of canon.py / automorphism.py is bound to a clock that advances one second per reading
+   (a slow machine), `timeout_sec` = 0.5 / 2.5 / 5.5: `CRNCanonicalizer.summary` / `canonical` may raise RuntimeError or report `early_stop`,
+   `CRNAutomorphism.summary` may report `stopped_early`; an answer WITHOUT that flag must be the exact one.  `CRNAutomorphism.iter(max_count=k)`
+   for k = 1, count-1, count, count+1 yields min(k, count) pairwise different structure-preserving self-maps; `iter` / `orbits` /
+   `has_nontrivial_automorphism` under a reached time or count limit carry no completeness flag and are gated for soundness only (yielded maps
+   are self-maps of the specification, orbit classes lie inside the specification's orbits and partition the nodes, `True` only if a
+   non-identity self-map exists).  (b) `node_attr_keys` / `edge_attr_keys` given as one-shot iterators (documented type Iterable[str]) to the
+   three classes: same gates as with tuples.  (c) configurations CONFIGS_D select the dict-valued arc attributes `stoich_r_map` / `stoich_p_map`
+   and the id set `via` of the species view (values travel as sorted pair lists; the Lean engine compares them as values): every gate above.
+   NEW FINDING, class `dict_valued_arc_key_orders_by_node_name`: `_freeze` turns a dict into a frozenset, frozensets are partially ordered,
+   `sorted()` of refinement signatures that contain them keeps the insertion (node name) order -> networks that differ by a species renaming
+   get different canonical graphs (A>>B, B>>A vs B>>A, A>>B under edge_attr_keys=("stoich_r_map",)).  Only the kernel gate "isomorphic views
+   receive different canonical graphs" under a configuration with a dict-valued key carries the class; every other gate stays unclassified.
+
 A network in which a species label equals a reaction id is classified `species_label_is_edge_id`
 (finding F19: the un-prefixed string ids of the bipartite view collide; not with integer ids, where every gate applies).
 The network without species under an EMPTY node key list (F39: `_search` raised StopIteration, repaired in /repo 69924ec) is gated like any other.
@@ -109,6 +124,8 @@ THEOREMS = [
 ]
 
 F19 = "species_label_is_edge_id"
+DICTKEY = "dict_valued_arc_key_orders_by_node_name"
+KERNEL_ISO_DIFFERENT = "networks whose views are isomorphic (renaming / reaction order / ids) receive different canonical graphs"
 
 CONFIGS = [
     {"name": "bip+stoich", "bip": True, "stoich": True, "nk": ["kind"], "ek": ["role", "stoich"]},
@@ -142,6 +159,17 @@ CONFIGS_K = [
 ]
 
 
+# dict-valued arc attributes of the species view among the keys (`stoich_r_map` / `stoich_p_map`: {reaction id -> coefficient}; `_freeze`
+# of canon.py / wl_canon.py turns a dict into a frozenset / tuple of items) and the id-set `via`.  New finding (class DICTKEY below): frozensets
+# are only partially ordered, `sorted()` of signatures that contain them keeps the insertion (= node name) order.
+CONFIGS_D = [
+    {"name": "species+stoich/dict-keys", "bip": False, "stoich": True, "nk": ["kind"], "ek": ["stoich_r_map", "stoich_p_map"]},
+    {"name": "species+stoich/via+dict-key", "bip": False, "stoich": True, "nk": ["kind"], "ek": ["via", "stoich_r_map"]},
+    {"name": "species+stoich/via", "bip": False, "stoich": True, "nk": ["kind"], "ek": ["via"]},
+]
+DICT_KEYS = ("stoich_r_map", "stoich_p_map")
+
+
 class _Configs(dict):
     """Configurations by name.  `<name>@api` is the configuration <name> with the flag `api`: besides the analysis every case
     gets, the rest of the public surface is exercised on the same network (limits, functional wrappers, methods, WL options)."""
@@ -152,7 +180,7 @@ class _Configs(dict):
         raise KeyError(key)
 
 
-CFG = _Configs({c["name"]: c for c in CONFIGS + CONFIGS_X + CONFIGS_I + CONFIGS_K})
+CFG = _Configs({c["name"]: c for c in CONFIGS + CONFIGS_X + CONFIGS_I + CONFIGS_K + CONFIGS_D})
 SETLIKE = ("via", "rules", "stoich_r_map", "stoich_p_map")
 
 
@@ -642,6 +670,50 @@ class _ForeignNode(Exception):
     """An answer names a node that is not a node of the view (or a canonical id that is not an integer)."""
 
 
+class _TickClock:
+    """Stand-in for the module `time` as seen by ONE synkit module: every reading of the clock (`time`, `monotonic`, `perf_counter`)
+    is one second later than the one before; everything else is the real module.  A slow machine is a legal environment, so every
+    answer given under this clock must still be sound; it makes time limits reachable at a fixed point of the search."""
+
+    def __init__(self, real):
+        self._real, self._now = real, 1.0e9
+
+    def _tick(self):
+        self._now += 1.0
+        return self._now
+
+    def time(self):
+        return self._tick()
+
+    def monotonic(self):
+        return self._tick()
+
+    def perf_counter(self):
+        return self._tick()
+
+    def __getattr__(self, k):
+        return getattr(self._real, k)
+
+
+def under_tick_clock(mod, fn):
+    """fn() with the name `time` of the module `mod` bound to a fresh _TickClock (restored afterwards).  If the module does not
+    read its clock through that name the limits are simply not reached and the call is an ordinary one."""
+    had = "time" in mod.__dict__
+    saved = mod.__dict__.get("time")
+    import time as real
+    try:
+        mod.time = _TickClock(saved if had and hasattr(saved, "time") else real)
+        return fn()
+    finally:
+        if had:
+            mod.time = saved
+        else:
+            mod.__dict__.pop("time", None)
+
+
+TICK_LIMITS = (0.5, 2.5, 5.5)  # seconds = clock readings: the search / enumeration is cut at its 1st, 3rd, 6th reading
+
+
 CLOCK_SLACK = 2.0  # a call that took less than this (outer wall clock) cannot have hit a default time limit of >= 5 s
 
 
@@ -705,6 +777,18 @@ def api_variants(H, cfg, kw, name, res):
     attempt("canon", "graph(max_depth=N+1, timeout_sec=1e6)", lambda: {"graph": enc_graph(cz.graph(**big), cid), "complete": True, "must": True})
     attempt("canon", "has_nontrivial_automorphism(max_depth=N+1, timeout_sec=1e6)", lambda: {"nontrivial": bool(cz.has_nontrivial_automorphism(**big)), "complete": True, "must": True})
 
+    # key selections given as one-shot iterators (documented type: Iterable[str])
+    attempt("canon", "summary(max_depth=N+1, timeout_sec=1e6), key selections given as one-shot iterators",
+            lambda: canon_rec(CRNCanonicalizer(H, edge_attr_keys=iter(list(cfg["ek"])), **dict(kw, node_attr_keys=iter(list(cfg["nk"])))).summary(**big), True))
+    # time limits that ARE reached, at a fixed point of the search (the module's clock advances one second per reading)
+    import synkit.CRN.Topo.canon as canon_mod
+    import synkit.CRN.Topo.automorphism as aut_mod
+    for t in TICK_LIMITS:
+        attempt("canon", f"summary[ticking clock](timeout_sec={t})",
+                lambda t=t: under_tick_clock(canon_mod, lambda: canon_rec(CRNCanonicalizer(H, edge_attr_keys=ek, **kw).summary(timeout_sec=t), False)), may_give_up=True)
+    attempt("canon", "canonical[ticking clock](..., timeout_sec=2.5)",
+            lambda: under_tick_clock(canon_mod, lambda: canon_rec(canonical(H, edge_attr_keys=ek, timeout_sec=2.5, **kw).summary(), False)), may_give_up=True)
+
     c0 = res["vf2"]["count"]
 
     def vf2_rec(r, must):
@@ -729,6 +813,24 @@ def api_variants(H, cfg, kw, name, res):
         attempt("vf2", "orbits() with its default limits", lambda: timed(lambda: {"orbits_raw": parts(a.orbits()), "complete": None}, c0 < 1000))
         attempt("vf2", "has_nontrivial_automorphism() with its default limit", lambda: timed(lambda: {"nontrivial": bool(a.has_nontrivial_automorphism()), "complete": None}, True))
         attempt("vf2", "iter(max_count=None, timeout_sec=None)", lambda: {"maps": sorted(mapping_list(m, name) for m in a.iter(max_count=None, timeout_sec=None)), "complete": True, "must": True})
+        # limits that ARE reached.  No completeness claim is attached to these answers: gated for soundness only (`partial`)
+        for k in sorted({1, max(1, c0 - 1), c0, c0 + 1}):
+            rel = {c0 - 1: "count-1", c0: "count", c0 + 1: "count+1"}.get(k, str(k))
+            attempt("vf2", f"iter[limited](max_count={rel}, timeout_sec=None)",
+                    lambda k=k: {"maps_listed": [mapping_list(m, name) for m in a.iter(max_count=k, timeout_sec=None)], "partial": {"max_count": k}})
+        attempt("vf2", "orbits[limited](max_count=max(1, count-1), timeout_sec=1e6)",
+                lambda: {"orbits_sub": parts(a.orbits(max_count=max(1, c0 - 1), timeout_sec=10 ** 6)), "partial": {}})
+        ait = CRNAutomorphism(H, edge_attr_keys=iter(list(cfg["ek"])), **dict(kw, node_attr_keys=iter(list(cfg["nk"]))))
+        attempt("vf2", "summary(max_count=count+1, timeout_sec=1e6), key selections given as one-shot iterators", lambda: vf2_rec(ait.summary(max_count=c0 + 1, timeout_sec=10 ** 6), True))
+        for t in TICK_LIMITS[:2]:
+            attempt("vf2", f"summary[ticking clock](max_count=10**7, timeout_sec={t})",
+                    lambda t=t: under_tick_clock(aut_mod, lambda: vf2_rec(a.summary(max_count=10 ** 7, timeout_sec=t), False)))
+            attempt("vf2", f"iter[ticking clock](max_count=None, timeout_sec={t})",
+                    lambda t=t: under_tick_clock(aut_mod, lambda: {"maps_listed": [mapping_list(m, name) for m in a.iter(max_count=None, timeout_sec=t)], "partial": {}}))
+            attempt("vf2", f"has_nontrivial_automorphism[ticking clock](timeout_sec={t})",
+                    lambda t=t: under_tick_clock(aut_mod, lambda: {"nontrivial_sound": bool(a.has_nontrivial_automorphism(timeout_sec=t)), "partial": {}}))
+        attempt("vf2", "orbits[ticking clock](max_count=1000, timeout_sec=1.5)",
+                lambda: under_tick_clock(aut_mod, lambda: {"orbits_sub": parts(a.orbits(max_count=1000, timeout_sec=1.5)), "partial": {}}))
     if sorted(cfg["ek"]) == ["role", "stoich"]:  # the wrapper has no edge_attr_keys parameter: it matches arcs on (role, stoich)
         attempt("vf2", "detect_automorphisms(..., max_count=None, timeout_sec=None)", lambda: vf2_rec(detect_automorphisms(H, max_count=None, timeout_sec=None, **kw), True))
         attempt("vf2", "detect_automorphisms(...) with its default limits", lambda: timed(lambda: vf2_rec(detect_automorphisms(H, **kw), False), c0 < 5000))
@@ -737,6 +839,10 @@ def api_variants(H, cfg, kw, name, res):
         return {"graph": enc_graph(w["canon_graph"], cid), "cells": parts(w["orbits"]), "graph_method": enc_graph(obj.graph(), cid), "cells_method": parts(obj.orbits()),
                 "again": enc_graph(obj.summary()["canon_graph"], cid)}
 
+    def wl_iter_keys():
+        obj = WLCanonicalizer(H, edge_attr_keys=iter(list(cfg["ek"])), **dict(kw, node_attr_keys=iter(list(cfg["nk"]))))
+        return wl_rec(obj.summary(), obj)
+    attempt("wl", "WLCanonicalizer(key selections given as one-shot iterators)", wl_iter_keys)
     for i, o in enumerate(WL_OPTION_SETS):
         def one(o=o, i=i):
             obj = (wl_canonical if i % 2 else WLCanonicalizer)(H, edge_attr_keys=ek, **kw, **o)
@@ -855,6 +961,8 @@ def _evaluate(ctx, families, tag, all_pairs=True, shrink=True):
     def report(what, fi, members, cn, detail, r_list, single=None):
         nets = [families[fi][0][m] for m in members]
         cls = sorted({c for r in r_list for c in classes_of(r)})
+        if what == KERNEL_ISO_DIFFERENT and any(k in DICT_KEYS for k in CFG[cn]["nk"] + CFG[cn]["ek"]):
+            cls = sorted(set(cls) | {DICTKEY})  # only this gate, only under a dict-valued key: every other gate stays unclassified there
         case = {"nets": nets, "config": cn}
         key = (what, tuple(cls))
         seen[key] = seen.get(key, 0) + 1
@@ -970,7 +1078,7 @@ def _evaluate(ctx, families, tag, all_pairs=True, shrink=True):
         iso = bool(pair_iso[pk])
         ctx.count(f"kernel_pair:{'iso' if iso else 'non-iso'}")
         if same != iso:
-            what = ("networks whose views are isomorphic (renaming / reaction order / ids) receive different canonical graphs" if iso
+            what = (KERNEL_ISO_DIFFERENT if iso
                     else "networks whose views are not isomorphic receive identical canonical graphs")
             report(what, fi, [i, j], cn, {"canon_i": ri["canon"]["graph"], "canon_j": rj["canon"]["graph"]}, [ri, rj])
 
@@ -1011,7 +1119,8 @@ def check_api(ctx, report, api, c, v, lk, want, ids, cfg, fi, ni, cn, r):
     for who, base, recs in (("CRNCanonicalizer", c, api["canon"]), ("CRNAutomorphism", v, api["vf2"])):
         for rec in recs:
             how = rec["how"]
-            ctx.count(f"api:{who}:{how.split('(')[0]}:" + ("error" if "error" in rec or "foreign" in rec else "gave-up" if "gave_up" in rec else "complete" if rec.get("complete") else "stopped-early"))
+            ctx.count(f"api:{who}:{how.split('(')[0]}:" + ("error" if "error" in rec or "foreign" in rec else "gave-up" if "gave_up" in rec else "limited" if "partial" in rec
+                                                           else "complete" if rec.get("complete") else "stopped-early"))
             if "error" in rec:
                 report(f"{who}: {how} raised an exception", fi, [ni], cn, {"error": rec["error"]}, [r], single=True)
                 continue
@@ -1019,6 +1128,28 @@ def check_api(ctx, report, api, c, v, lk, want, ids, cfg, fi, ni, cn, r):
                 report(f"{who}: an answer names nodes that are not nodes of the view it was computed from (asked another way)", fi, [ni], cn, {"call": how, "node": rec["foreign"]}, [r], single=True)
                 continue
             if "gave_up" in rec:
+                continue
+            if "partial" in rec:  # an answer under a limit that was (or may have been) reached, with no completeness claim attached: soundness only
+                full = auts if auts is not None else base["maps"]
+                bad = None
+                if "maps_listed" in rec:
+                    ms, k = rec["maps_listed"], rec["partial"].get("max_count")
+                    ctx.count(f"api:limited_iter:yielded_{'all' if len(ms) == want['count'] else 'some'}")
+                    if any(m not in full for m in ms):
+                        bad = ("a yielded mapping is not a structure-preserving self-map of the view", {"impl": [m for m in ms if m not in full][:5]})
+                    elif len({json.dumps(m) for m in ms}) != len(ms):
+                        bad = ("the same mapping is yielded twice", {"impl": ms[:20]})
+                    elif k is not None and len(ms) != min(k, want["count"]):
+                        bad = ("iter(max_count=k) must yield min(k, number of structure-preserving self-maps) mappings", {"k": k, "yielded": len(ms), "spec_count": want["count"]})
+                if "orbits_sub" in rec:
+                    home = {x: i for i, o in enumerate(want["orbits"]) for x in o}
+                    if not is_partition(rec["orbits_sub"], ids) or any(len({home[x] for x in o}) != 1 for o in rec["orbits_sub"]):
+                        bad = ("orbits computed from a sample of the self-maps must be a partition of the nodes whose classes lie inside the classes of exchangeable nodes",
+                               {"impl": sorted(rec["orbits_sub"]), "spec": want["orbits"]})
+                if rec.get("nontrivial_sound") and want["count"] == 1:
+                    bad = ("has_nontrivial_automorphism() is True although the identity is the only structure-preserving self-map", {"spec_count": 1})
+                if bad:
+                    report(f"{who}: {bad[0]} (limit reached)", fi, [ni], cn, dict(bad[1], call=how), [r], single=True)
                 continue
             if not rec.get("complete"):
                 if rec.get("must"):
@@ -1904,6 +2035,8 @@ def run(ctx):
         "graph the back-end built, node ids interned in sorted(G.nodes()) order; the leaves of the real search are observed through a subclass whose _search / _label wrappers only record "
         "and delegate; Python compares rendered label STRINGS, the model structured labels (theorems hold for every strict total label order): equality of labels is compared as a pattern, "
         "equality of the final order only where the two orders provably coincide (single-type values, no rendering a proper prefix of another, e.g. coefficients <= 9)",
+        "the ticking clock used for the reached-time-limit calls shadows the name `time` inside synkit.CRN.Topo.canon / synkit.CRN.Topo.automorphism only (their clock readings: "
+        "_search's timeout test, _should_stop, elapsed_seconds); if a tree reads its clock another way the limits are not reached and the calls are ordinary ones",
         "NetworkX DiGraphMatcher (CRNAutomorphism) and the WL helper are not modelled: their outputs are gated against the proven specification "
         "(count, mapping set, orbit partition, faithfulness, kernel agreement) on every generated case, as are the outputs of the IR search",
     ]
@@ -1917,6 +2050,11 @@ def run(ctx):
         "limits: an analyser that reports no early stop (early_stop / stopped_early False) claims the exact answer whatever limits it was given; a limit above the size of the search "
         "(max_depth >= number of nodes, max_count > automorphism count, a time limit of 1e6 s, or a default time limit >= 5 s on a call that returned within 2 s) is not reached; "
         "under tight limits a RuntimeError ('canonical form not found') or a reported early stop is accepted and nothing else is demanded",
+        "answers under a limit that was reached: only what they claim is gated - a summary without early_stop / stopped_early claims exactness; CRNAutomorphism.iter(max_count=k) that ends "
+        "before k mappings claims to have listed all of them (so it yields min(k, count) different self-maps); iter / orbits / has_nontrivial_automorphism cut by a time limit or a "
+        "sample limit carry no flag and are gated for soundness only (sub-orbits, genuine self-maps, True only with a witness); a clock that advances one second per reading is a legal environment",
+        "dict-valued (stoich_r_map, stoich_p_map) and id-set-valued (via) arc attributes are legal members of edge_attr_keys (the species view documents them, _freeze handles dicts): "
+        "'structure-preserving' compares them as values; expected answers come from the same Lean engine (crn.iso / crn.analyse / crn.isos on the selected keys), no Python-side specification was needed",
         "detect_automorphisms has no edge_attr_keys parameter (arcs matched on role + stoich): gated only under configurations whose arc keys are these two",
         "in-place edits of the history stream go through add_rxn / remove_rxn / remove_species, or change a coefficient (>= 1) of a species already on a side / the rule field of a stored "
         "reaction (the store stays consistent); a helper object keeps the view it built on first use (documented as cached), so a helper created before an edit may describe the network "
@@ -1945,6 +2083,11 @@ def run(ctx):
         "(limits above / at default / below the count, methods, iter, wrapper where the arc keys are role+stoich), 7 WL option sets through class and wrapper. "
         "Stream `odd-names`: 24 / 300 random networks and the symmetric families (30% / all) with species, rules and ids from a pool of 28 rare names (numeric strings, ':' '|', "
         "'species', 'kind', blank, empty, long, non-ASCII), with renamed copies and a near miss, under 2 standard + 2 option configurations. "
+        "Coverage-driven additions: every `<name>@api` case also gets 4 canonicaliser calls under a ticking clock (timeout_sec 0.5 / 2.5 / 5.5, wrapper with 2.5), one-shot key iterators for "
+        "the three classes, CRNAutomorphism.iter(max_count in {1, count-1, count, count+1}), orbits(max_count=max(1, count-1)), and summary / iter / has_nontrivial_automorphism / orbits under a ticking clock "
+        "(timeout_sec 0.5, 2.5; orbits 1.5) - counters api:*[ticking clock]:*, api:*[limited]:*, api:limited_iter:*. Stream `dict-keys`: every non-empty symmetric family with 2 renamed copies under the "
+        "3 configurations CONFIGS_D (arc keys stoich_r_map+stoich_p_map / via+stoich_r_map / via on the species view), 30 / 400 random networks (<=5 species, <=4 reactions) with 2 renamed copies and a near miss under 2 of "
+        "the 3, every third symmetric family under one of them with the public-surface calls (`@api`). "
         "IR correspondence stream (last): regression corpus, every symmetric family (all 7 configurations) with a renamed copy, F19 networks, 2..3 disjoint identical components of small "
         "fixed / random networks (search trees of depth >= 2), rings with coefficients 10 / 2 and a 12-vs-3 network (label strings order differently from structured labels), exhaustive "
         "3-species networks (sampled in quick), random networks (half of them renamed), each under 2..7 configurations; per graph 2 probe partitions (unit / one cell of the refined "
@@ -2079,10 +2222,32 @@ def run(ctx):
         if len(ctx.violations) < 20:
             evaluate(ctx, b, "random")
     ctx.count("families:random", len(fams))
+    # dict-valued arc attributes of the species view (`stoich_r_map`, `stoich_p_map`) and the id set `via` among the arc keys
+    DCFG = [c["name"] for c in CONFIGS_D]
+    fams = []
+    for name, net in symmetric_families():
+        if not net["rxns"]:
+            continue
+        fams.append(([net, rename_net(net, rnd, keep_labels=True, ids=rnd.choice(["regen", "explicit"])), rename_net(net, rnd)], DCFG))
+    for _ in range(30 if ctx.quick else 400):
+        net = random_net(rnd, max_species=5, max_rxns=4)
+        members = [net, rename_net(net, rnd, keep_labels=True), rename_net(net, rnd, ids=rnd.choice(["regen", "explicit"]))]
+        nm = near_miss(net, rnd)
+        if nm:
+            members.append(nm[0])
+        fams.append((members, rnd.sample(DCFG, 2)))
+    for k, (name, net) in enumerate(symmetric_families()):  # the rest of the public surface under these key selections
+        if net["rxns"] and k % 3 == 0:
+            fams.append(([net], [DCFG[(k // 3) % len(DCFG)] + "@api"]))
+    ctx.count("families:dict-keys", len(fams))
+    for b in batches(fams, 100):
+        if len(ctx.violations) < 20:
+            evaluate(ctx, b, "dict-keys")
+
     def is_ir(v):
         return isinstance(v.get("detail"), dict) and str(v["detail"].get("stream", "")).startswith("ir")
 
-    real = [v for v in ctx.violations if F19 not in v["classes"]]
+    real = [v for v in ctx.violations if F19 not in v["classes"] and DICTKEY not in v["classes"]]
     ctx.obligation("correspondence: views, canonical graphs (faithful, kernel agreement), automorphism counts / mappings / orbits impl == proven specification", not real)
 
     # IR correspondence: the search of CRNCanonicalizer against the model the crn_ir_* theorems are about
